@@ -32,7 +32,10 @@ def generate(ctx):
     import tr_cmp
     text, comps = tr_cmp.translate(ctx.int_src("compiler/cfg_compiler.py"))
     ctx.gen("GenCmp.v", text)
-    return comps
+    import tr_ret
+    rtext, guard = tr_ret.translate(ctx.int_src("compiler/cfg_compiler.py"), ctx.int_src("compiler/core.py"))
+    ctx.gen("GenRet.v", rtext)
+    return comps + [guard]
 
 
 # ---------------------------------------------------------------------------------------------
@@ -208,7 +211,7 @@ def fail_class(r):
 def split_prelude(src):
     """(prelude, body) for generated programs, ("", src) for corpus programs"""
     import gen_progs
-    for pre in (gen_progs.PRELUDE, gen_progs.GENERIC_PRELUDE, gen_progs.NESTED_PRELUDE):
+    for pre in (gen_progs.PRELUDE, gen_progs.GENERIC_PRELUDE, gen_progs.NESTED_PRELUDE, gen_progs.MULTI_PRELUDE):
         if src.startswith(pre):
             return pre, src[len(pre):]
     return "", src
@@ -576,7 +579,7 @@ def run(ctx):
 
     # ---- proofs ----------------------------------------------------------------------------------
     if comps is None:
-        ctx.report("translator", "proof-broken", "tr_cmp.py does not recognise compare_var/sort_vars any more",
+        ctx.report("translator", "proof-broken", "tr_cmp.py / tr_ret.py do not recognise compare_var/sort_vars or the insert_return_vars guard/skeleton any more",
                    {"notes": ctx.notes}, found_input=bool(ctx.violations))
     elif not info["ok"] and not ctx.violations:
         ctx.report("proof-broken:" + str(info["failed"]), "proof-broken", str(info["failed"]),
@@ -614,7 +617,8 @@ def run(ctx):
                   "cfgs_compared_with_model": n_compared, "distinct_cfgs_evaluated_in_coq": len(texts),
                   "branching_blocks": n_branching, "tuple_sum_blocks": n_tuplesum, "model_mismatches": mismatches,
                   "rows_where_str_is_not_injective_on_ids": n_noninj, "features_in_accepted_programs": feats},
-        sort_vars={"rows": len(rows), "disagreements": sort_bad, "key_components": comps},
+        sort_vars={"rows": len(rows), "disagreements": sort_bad, "key_components": comps[:-1] if comps else None},
+        return_var_guard=comps[-1] if comps else None,
         c06_bridge=bridge_cov, dfcontainer=dfc_cov, validator_selftest=selftest, samples=samples, notes=ctx.notes)
     return ctx.finish(LEVEL, cov, [
         "the checked CFG satisfies cfg_ok (decidable; evaluated on every compiled CFG of the run, a False is reported)",
